@@ -177,6 +177,9 @@ impl Monitor for C07 {
         let realized = view.pnl_for(q_whole).mul(Big::u(e.partial)).div(Big::u(d));
         self.sub_ctx = (view.pos.margin, Big::u(view.pos.margin).add(realized).to_u128());
         r.count("antecedents-met");
+        if e.paused {
+            r.count(if predicted_partial { "antecedents-met-while-paused:partial-path" } else { "antecedents-met-while-paused:full-path" });
+        }
         r.case(format!("{}|{}|{}|{}|vault_short={}|paused={}|{}", feed, which, class, partial, vault_short, e.paused, if view.pos.long_dir { "long" } else { "short" }));
         let pclass = if e.partial == 0 { "p0" } else { "p>0" };
         self.expect = Some((
